@@ -60,3 +60,6 @@ func Quiesce() { vsched.Quiesce() }
 
 // LiveLibThreads counts library goroutines that have not exited.
 func LiveLibThreads() int { return vsched.LiveLibThreads() }
+
+// Notes returns the lock-discipline findings of an execution (T7).
+func Notes(r ExecResult) []string { return r.Notes }
